@@ -903,8 +903,11 @@ def e2_run(tier):
         res["tool_errors"].append("Conc gen rc=%s n=%s %s" % (g["rc"], g["n"], g["errors"][:2]))
     allsched = [json.loads(l) for l in open(sin)]
     # pairs that are already known to deadlock are left to C15
-    deadpairs = {tuple(d["ops"]) for d in dead}
-    allsched = [s for s in allsched if (s["a"], s["b"]) not in deadpairs]
+    deadpairs = {tuple(sorted(d["ops"])) for d in dead}
+    # (also the pairs listed as deadlocking: a confirmation run may stall on a loaded machine)
+    deadpairs |= {tuple(sorted(f["ops"])) for f in known_findings().get("findings", []) if f.get("engine") == "E2" and f.get("property") == "C15"}
+    deadpairs |= {tuple(sorted(k.split("||"))) for k in res.get("stuck_pairs", [])}
+    allsched = [s for s in allsched if tuple(sorted((s["a"], s["b"]))) not in deadpairs]
     cap = 1500 if tier == "quick" else 40000
     if len(allsched) > cap:
         rnd.shuffle(allsched)
